@@ -37,14 +37,21 @@ class C09(SCheck):
         if recursive:
             ops.append(gen.d_op("dst/src"))
         cap = 3000 if bs < 64 else 30000
+        zero_names = []
         for n in names:
             ops.append(gen.f_op("src/" + n, gen.boundary_size(r, bs, cap=cap), pat=r.randrange(1, 1 << 30)))
             if r.random() < 0.8:
                 ops.append(gen.f_op(base + "/" + n, r.randrange(0, 3000), pat=r.randrange(1, 1 << 30)))
             # pre-existing backups
-            for _ in range(r.choice([0, 0, 1, 2, 3])):
-                num = r.choice([1, 2, 3, 7, 9, 10, 99, 123456, 2 ** 31, 2 ** 63 - 2])
+            only_zero = r.random() < 0.12  # the only backup present carries the number 0 (auto mode must still notice it)
+            if only_zero:
+                zero_names.append(n)
+                ops.append(gen.f_op("%s/%s.~%s~" % (base, n, r.choice(["0", "0", "00"])), r.randrange(0, 500), pat=r.randrange(1, 1 << 30)))
+            for _ in range(0 if only_zero else r.choice([0, 0, 1, 2, 3])):
+                num = r.choice([0, 0, 1, 2, 3, 7, 9, 10, 99, 123456, 2 ** 31, 2 ** 63 - 2])
                 txt = str(num) if r.random() < 0.8 else "%04d" % num
+                if num == 0 and r.random() < 0.3:
+                    txt = "00"
                 ops.append(gen.f_op("%s/%s.~%s~" % (base, n, txt), r.randrange(0, 500), pat=r.randrange(1, 1 << 30)))
             # prefix-related neighbours that are NOT backups of n
             if r.random() < 0.4:
@@ -56,6 +63,8 @@ class C09(SCheck):
         steps = []
         for j in range(nsteps):
             mode = r.choice(["numbered", "numbered", "auto", "none"])
+            if zero_names and j == 0:
+                mode = "auto"
             edits = []
             if j > 0:
                 for n in names:
